@@ -308,12 +308,10 @@ class FieldValueComponentKeyValueBase(FieldValueComponentBase):
         if cls.get_canonical_name():
             parser.parse_separator('=')
         cls._parse_value(parser)
-        parsed_value = parser['value']
-        if cls.get_canonical_name():
-            try:
-                parsed_value = cls(parsed_value)
-            except TypeError as e:
-                six.raise_from(InvalidValue(parser['value'], cls, 'value'), e)
+        try:
+            parsed_value = cls(parser['value'])
+        except TypeError as e:
+            six.raise_from(InvalidValue(parser['value'], cls, 'value'), e)
 
         return parsed_value, parser.parsed_length
 
